@@ -1,6 +1,10 @@
 import RV.Proofs.TieTree2Top
 import RV.Proofs.TieTree2Reset
+import RV.Proofs.TieTree2Compact
+import RV.Proofs.TieTree2Iter
+import RV.Proofs.TieTree2Reinit
 import RV.Proofs.TreeOps
+import RV.Props.C10
 /-!
 # TieTree2 — `Tree.set` / `Tree.Set` with splits, new children and the root split; `initRootNode`; `Reset` (C10 / C16)
 
@@ -22,7 +26,16 @@ that neither splits nor creates a child.  Here:
   (`TreeInv`, what `c10_abs` maintains): generated `Set` = structural `set`, result represented,
   allocator corresponds, liveness re-established — so the statement iterates (`tie_tree_Sets`) and
   `c10_get_set` speaks about the memory the generated code leaves (`tie_tree_Set_abs`);
-* `tie_initRootNode`, `tie_Reset` — the initial tree.
+* `tie_initRootNode`, `tie_Reset` — the initial tree;
+* `tie_tree_compact`, `tie_DeleteBelow` — `Tree.compact` (the recursion with its `for` loop, pages pushed on
+  the free list, `n.compact(1)` of the parent) and `Tree.DeleteBelow`; `tie_tree_ops`: any history of legal
+  `Set`s and `DeleteBelow`s run on the generated code keeps representing the structural tree;
+* `tie_IterateKV` — `Tree.IterateKV(f)`, the walk whose callback rewrites leaf values;
+* `tie_reinit` — `Tree.reinit` (what `NewTreePersistent` runs on an existing file) recomputes frontier, free-list
+  head and both statistics from the page contents of a cleanly closed tree (C16);
+* `tie_c10_step` / `tie_c10_ops` — C10's own `Op` / `applyOp` / `runOps` / `runSpec`: every history of `Set`,
+  `DeleteBelow`, `IterateKV`, `Reset` run on the generated functions returns, leaves `runOps cfg tr ops`
+  represented, and that tree denotes `runSpec (abs tr) ops` — `c10_abs` now speaks about the generated code.
 
 `AllocInv cfg t a`: `AllocScal` (scalars), `FreeChain` (free pages chained through word 0), free pages
 distinct and below the frontier, memory below 2^40 words.  `Live a n`: the pages of `n` are pairwise
@@ -272,6 +285,251 @@ theorem tie_tree_Sets (cfg : Cfg) (hc : CfgFlat cfg) (hok : CfgOk cfg) :
     simp only [List.foldlM_cons, h1]
     exact g1
 
+/-! ## `Tree.compact`, `Tree.DeleteBelow` -/
+
+/-- The generated `Tree.compact(n, ts)` on the window of a represented well-formed node: it returns what
+the structural `compactNode` returns, the structural result (children whose page was released are `null`,
+their pages pushed on the free list through word 0) is represented, the allocator corresponds (free list,
+`NumPagesFree`, `NumLeafKeys`), the data and the epoch are unchanged, pages outside are framed. -/
+theorem tie_tree_compact (cfg : Cfg) (hc : CfgFlat cfg) (hok : CfgOk cfg) (ts : Val)
+    (fuel : Nat) (n : Node) (b : Nat) (lo hi : Key) (t : St) (a : Alloc)
+    (hn : okNode cfg.maxKeys b n lo hi) (hb : b ≤ cfg.maxKeys)
+    (hr : TreeFlat.Repr cfg t.data n) (hinv : AllocInv cfg t a) (hlive : Live a n) (hfuel : height n ≤ fuel) :
+    ∃ t', Gen.TreeM.compact (w cfg.pageSize) (w cfg.maxKeys) fuel t (refOf cfg t n.pid) ts =
+        some (t', w (compactNode ts n a).2.2) ∧
+      TreeFlat.Repr cfg t'.data (compactNode ts n a).1 ∧ AllocInv cfg t' (compactNode ts n a).2.1 ∧
+      t'.data.size = t.data.size ∧ t'.epoch = t.epoch ∧
+      (∀ r, r ∉ pids n → r ∉ a.free → r < a.nextPage → (r + 1) * pw cfg ≤ t.data.size →
+        pageOf cfg t'.data r = pageOf cfg t.data r) :=
+  compact_refines hc hok ts fuel n b lo hi t a hn hb hr hinv hlive hfuel
+
+/-- **`Tree.DeleteBelow(ts)`** on a represented well-formed tree: the generated function returns (no
+panic, `assert(root.numKeys() >= 1)` holds), the structural `deleteBelow tr ts` — about which
+`c10_delete_below` speaks — is represented, the allocator corresponds, the new tree is well-formed with
+its root in page 1 and live pages (so the statement iterates), the data size is unchanged. -/
+theorem tie_DeleteBelow (cfg : Cfg) (hc : CfgFlat cfg) (hok : CfgOk cfg) (t : St) (tr : Tree)
+    (hti : TreeInv cfg tr) (hroot : tr.root.pid = 1) (hr : TreeFlat.Repr cfg t.data tr.root)
+    (hinv : AllocInv cfg t tr.a) (hlive : Live tr.a tr.root) (ts : Val) (fuel : Nat) (hfuel : height tr.root ≤ fuel) :
+    ∃ t', Gen.TreeM.DeleteBelow (w cfg.pageSize) (w cfg.maxKeys) fuel t ts = some t' ∧
+      TreeFlat.Repr cfg t'.data (deleteBelow tr ts).root ∧ AllocInv cfg t' (deleteBelow tr ts).a ∧
+      Live (deleteBelow tr ts).a (deleteBelow tr ts).root ∧ TreeInv cfg (deleteBelow tr ts) ∧
+      (deleteBelow tr ts).root.pid = 1 ∧ t'.data.size = t.data.size := by
+  obtain ⟨t', h1, h2, h3, h4⟩ := DeleteBelow_refines hc hok t tr hti hroot hr hinv hlive ts fuel hfuel
+  have hp : ∀ p ∈ pids tr.root, PosPid p := by
+    intro p hp
+    have := repr_fits tr.root hr p hp
+    have hs := hinv.small
+    have hpos := pw_pos cfg
+    refine ⟨this.1, ?_⟩
+    have e := succ_mul_pw cfg p
+    rcases Nat.lt_or_ge p (2 ^ 40) with h | h
+    · omega
+    · have : 2 ^ 40 * 1 ≤ p * pw cfg := Nat.mul_le_mul h hpos
+      omega
+  obtain ⟨s1, _, _, s4, _, _, s7, _, _⟩ := deleteBelow_spec hok tr hti hp ts
+  obtain ⟨y1, y2, _, _, _⟩ := live_of_cons s4 hlive.nodup hlive.live hinv.nodup hinv.below
+  exact ⟨t', h1, h2, h3, ⟨y1, y2⟩, s1, by rw [s7]; exact hroot, h4⟩
+
+/-- the operations whose generated code is proved to refine the model -/
+inductive FOp where
+  | set (k : Key) (v : Val)
+  | del (ts : Val)
+
+def FOp.legal : FOp → Prop
+  | .set k _ => Gen.Tree.setKeyPanic k = false
+  | .del _ => True
+
+/-- the structural model's step (`applyOp` of C10 on these operations) -/
+def applyF (cfg : Cfg) (tr : Tree) : FOp → Tree
+  | .set k v => RV.Tree.set cfg tr k v
+  | .del ts => deleteBelow tr ts
+
+/-- the generated code's step on the flat state (fuel 64) -/
+def stepF (cfg : Cfg) (t : St) : FOp → Option St
+  | .set k v => Gen.TreeM.Set (w cfg.pageSize) (w cfg.maxKeys) 64 t k v
+  | .del ts => Gen.TreeM.DeleteBelow (w cfg.pageSize) (w cfg.maxKeys) 64 t ts
+
+/-- Any history of legal `Set`s and `DeleteBelow`s: the generated code never panics and the memory it
+leaves represents the structural tree after the same history — the tree `c10_abs` is about — as long as
+the frontier stays below 2^40 words and the height below the fuel 64. -/
+theorem tie_tree_ops (cfg : Cfg) (hc : CfgFlat cfg) (hok : CfgOk cfg) :
+    ∀ (ops : List FOp) (t : St) (tr : Tree),
+    TreeInv cfg tr → tr.root.pid = 1 → TreeFlat.Repr cfg t.data tr.root → AllocInv cfg t tr.a → Live tr.a tr.root →
+    (∀ op ∈ ops, op.legal) →
+    (∀ n, n ≤ ops.length → (((ops.take n).foldl (applyF cfg) tr).a.nextPage + 2) * pw cfg < 2 ^ 40) →
+    (∀ n, n ≤ ops.length → height ((ops.take n).foldl (applyF cfg) tr).root ≤ 64) →
+    ∃ t', ops.foldlM (stepF cfg) t = some t' ∧
+      TreeFlat.Repr cfg t'.data (ops.foldl (applyF cfg) tr).root ∧ AllocInv cfg t' (ops.foldl (applyF cfg) tr).a ∧
+      TreeInv cfg (ops.foldl (applyF cfg) tr)
+  | [], t, tr, hti, _, hr, hinv, _, _, _, _ => ⟨t, rfl, hr, hinv, hti⟩
+  | op :: rest, t, tr, hti, hroot, hr, hinv, hlive, hl, hb, hh => by
+    have hb1 := hb 1 (by simp)
+    have hh0 := hh 0 (by simp)
+    simp only [List.take_succ_cons, List.take_zero, List.foldl_cons, List.foldl_nil] at hb1 hh0
+    have hstep : ∃ t1, stepF cfg t op = some t1 ∧ TreeFlat.Repr cfg t1.data (applyF cfg tr op).root ∧
+        AllocInv cfg t1 (applyF cfg tr op).a ∧ Live (applyF cfg tr op).a (applyF cfg tr op).root ∧
+        TreeInv cfg (applyF cfg tr op) ∧ (applyF cfg tr op).root.pid = 1 := by
+      cases op with
+      | set k v =>
+        have hk : Gen.Tree.setKeyPanic k = false := hl (.set k v) (by simp)
+        obtain ⟨t1, h1, h2, h3, h4, _, _⟩ := Set_refines hc hok t tr hti hroot hr hinv hlive k v hk hb1 64 hh0
+        obtain ⟨s1, _, _, _, s5, _⟩ := set_spec hok tr k v hti hk
+        exact ⟨t1, h1, h2, h3, h4, s1, by show (RV.Tree.set cfg tr k v).root.pid = 1; rw [s5]; exact hroot⟩
+      | del ts =>
+        obtain ⟨t1, h1, h2, h3, h4, h5, h6, _⟩ := tie_DeleteBelow cfg hc hok t tr hti hroot hr hinv hlive ts 64 hh0
+        exact ⟨t1, h1, h2, h3, h4, h5, h6⟩
+    obtain ⟨t1, h1, h2, h3, h4, h5, h6⟩ := hstep
+    obtain ⟨t', g1, g2, g3, g4⟩ := tie_tree_ops cfg hc hok rest t1 (applyF cfg tr op) h5 h6 h2 h3 h4
+      (fun o ho => hl o (by simp [ho]))
+      (fun n hn => by have := hb (n + 1) (by simp; omega); simpa using this)
+      (fun n hn => by have := hh (n + 1) (by simp; omega); simpa using this)
+    refine ⟨t', ?_, g2, g3, g4⟩
+    simp only [List.foldlM_cons, h1]
+    exact g1
+
+/-! ## `Tree.IterateKV`, and every history of C10's operations on the generated code -/
+
+theorem pid_of_pids {n n' : Node} (h : pids n' = pids n) (hn : n ≠ .null) (hn' : n' ≠ .null) : n'.pid = n.pid := by
+  cases n with
+  | null => exact absurd rfl hn
+  | leaf p es =>
+    cases n' with
+    | null => exact absurd rfl hn'
+    | leaf p' es' => simp only [pids, List.cons.injEq] at h; exact h.1
+    | inner p' es' => simp only [pids, List.cons.injEq] at h; exact h.1
+  | inner p es =>
+    cases n' with
+    | null => exact absurd rfl hn'
+    | leaf p' es' => simp only [pids, List.cons.injEq] at h; exact h.1
+    | inner p' es' => simp only [pids, List.cons.injEq] at h; exact h.1
+
+/-- **`Tree.IterateKV(f)`** (the walk whose callback rewrites leaf values) on a represented well-formed tree:
+the generated function returns, the structural `iterateKV tr f` — about which `c10_iterate` speaks — is
+represented, allocator and liveness are unchanged, the new tree is well-formed with its root in page 1. -/
+theorem tie_IterateKV (cfg : Cfg) (hc : CfgFlat cfg) (hok : CfgOk cfg) (t : St) (tr : Tree)
+    (hti : TreeInv cfg tr) (hroot : tr.root.pid = 1) (hr : TreeFlat.Repr cfg t.data tr.root)
+    (hinv : AllocInv cfg t tr.a) (hlive : Live tr.a tr.root) (f : Key → Val → Val)
+    (fuel : Nat) (hfuel : height tr.root ≤ fuel) :
+    ∃ t', Gen.TreeM.IterateKV (w cfg.pageSize) (w cfg.maxKeys) fuel t f = some t' ∧
+      TreeFlat.Repr cfg t'.data (iterateKV tr f).root ∧ AllocInv cfg t' (iterateKV tr f).a ∧
+      Live (iterateKV tr f).a (iterateKV tr f).root ∧ TreeInv cfg (iterateKV tr f) ∧
+      (iterateKV tr f).root.pid = 1 ∧ t'.data.size = t.data.size := by
+  obtain ⟨t', h1, h2, h3, h4⟩ := IterateKV_refines hc hok t tr hti hroot hr hinv hlive f fuel hfuel
+  obtain ⟨s1, _, _, s4, _, s6⟩ := iterateKV_spec tr hti f
+  have hpid : (iterateKV tr f).root.pid = tr.root.pid :=
+    pid_of_pids s4 (okNode_ne_null hti.ok) (okNode_ne_null s1.ok)
+  refine ⟨t', h1, h2, h3, ?_, s1, by rw [hpid]; exact hroot, h4⟩
+  rw [s6]
+  exact ⟨by rw [s4]; exact hlive.nodup, fun r hr => hlive.live r (by rw [s4] at hr; exact hr)⟩
+
+/-- the generated code's step for C10's operations (fuel 64) -/
+def stepOp (cfg : Cfg) (t : St) : RV.C10.Op → Option St
+  | .set k v => Gen.TreeM.Set (w cfg.pageSize) (w cfg.maxKeys) 64 t k v
+  | .del ts => Gen.TreeM.DeleteBelow (w cfg.pageSize) (w cfg.maxKeys) 64 t ts
+  | .iter f => Gen.TreeM.IterateKV (w cfg.pageSize) (w cfg.maxKeys) 64 t f
+  | .reset => Gen.TreeM.Reset (w cfg.pageSize) (w cfg.maxKeys) 64 t
+
+/-- what has to stay in range along a history: the frontier below 2^40 words after a `Set`, the height
+below the fuel, the buffer capacity a Go `int` -/
+def InRange (cfg : Cfg) (tr : Tree) : Prop :=
+  (tr.a.nextPage + 2) * pw cfg < 2 ^ 40 ∧ height tr.root ≤ 64 ∧ tr.a.curSz < 2 ^ 64
+
+/-- One step of C10's `applyOp`, run on the generated code. -/
+theorem tie_c10_step (cfg : Cfg) (hc : CfgFlat cfg) (hok : CfgOk cfg) (t : St) (tr : Tree)
+    (hti : TreeInv cfg tr) (hroot : tr.root.pid = 1) (hr : TreeFlat.Repr cfg t.data tr.root)
+    (hinv : AllocInv cfg t tr.a) (hlive : Live tr.a tr.root) (op : RV.C10.Op) (hl : op.legal)
+    (h0 : InRange cfg tr) (h1 : InRange cfg (RV.C10.applyOp cfg tr op)) :
+    ∃ t', stepOp cfg t op = some t' ∧ TreeFlat.Repr cfg t'.data (RV.C10.applyOp cfg tr op).root ∧
+      AllocInv cfg t' (RV.C10.applyOp cfg tr op).a ∧
+      Live (RV.C10.applyOp cfg tr op).a (RV.C10.applyOp cfg tr op).root ∧
+      TreeInv cfg (RV.C10.applyOp cfg tr op) ∧ (RV.C10.applyOp cfg tr op).root.pid = 1 := by
+  cases op with
+  | set k v =>
+    have hk : Gen.Tree.setKeyPanic k = false := hl
+    obtain ⟨t1, g1, g2, g3, g4, _, _⟩ := Set_refines hc hok t tr hti hroot hr hinv hlive k v hk h1.1 64 h0.2.1
+    obtain ⟨s1, _, _, _, s5, _⟩ := set_spec hok tr k v hti hk
+    exact ⟨t1, g1, g2, g3, g4, s1, by show (RV.Tree.set cfg tr k v).root.pid = 1; rw [s5]; exact hroot⟩
+  | del ts =>
+    obtain ⟨t1, g1, g2, g3, g4, g5, g6, _⟩ := tie_DeleteBelow cfg hc hok t tr hti hroot hr hinv hlive ts 64 h0.2.1
+    exact ⟨t1, g1, g2, g3, g4, g5, g6⟩
+  | iter f =>
+    obtain ⟨t1, g1, g2, g3, g4, g5, g6, _⟩ := tie_IterateKV cfg hc hok t tr hti hroot hr hinv hlive f 64 h0.2.1
+    exact ⟨t1, g1, g2, g3, g4, g5, g6⟩
+  | reset =>
+    have hmk2 : 2 ≤ cfg.maxKeys := by have := hok.ge4; omega
+    obtain ⟨t1, g1, g2, g3, g4, g5, _⟩ := tie_Reset cfg hc hmk2 t 62
+    have hcur : t.bufCurSz.toNat = tr.a.curSz := by
+      rw [hinv.scal.curSz]; exact w_toNat h0.2.2
+    rw [hcur] at g2 g3 g4 g5
+    exact ⟨t1, g1, g2, g3, g5, (reset_spec hok _).1, g4⟩
+
+/-- **Every history of C10's operations** (`Set`, `DeleteBelow`, `IterateKV` with any callback, `Reset`), run on
+the generated code from a represented well-formed tree: the generated functions never panic, the memory
+they leave represents `runOps cfg tr ops` — the structural tree of `c10_abs` — and (with the page invariant)
+that tree denotes exactly the map the history denotes.  Side condition `InRange` after every prefix. -/
+theorem tie_c10_ops (cfg : Cfg) (hc : CfgFlat cfg) (hok : CfgOk cfg) :
+    ∀ (ops : List RV.C10.Op) (t : St) (tr : Tree),
+    TreeInv cfg tr → PidInv tr → tr.root.pid = 1 → TreeFlat.Repr cfg t.data tr.root → AllocInv cfg t tr.a →
+    Live tr.a tr.root → (∀ op ∈ ops, op.legal) →
+    (∀ n, n ≤ ops.length → InRange cfg (RV.C10.runOps cfg tr (ops.take n))) →
+    ∃ t', ops.foldlM (stepOp cfg) t = some t' ∧
+      TreeFlat.Repr cfg t'.data (RV.C10.runOps cfg tr ops).root ∧ AllocInv cfg t' (RV.C10.runOps cfg tr ops).a ∧
+      TreeInv cfg (RV.C10.runOps cfg tr ops) ∧ PidInv (RV.C10.runOps cfg tr ops) ∧
+      abs (RV.C10.runOps cfg tr ops) = RV.C10.runSpec (abs tr) ops
+  | [], t, tr, hti, hp, _, hr, hinv, _, _, _ => ⟨t, rfl, hr, hinv, hti, hp, rfl⟩
+  | op :: rest, t, tr, hti, hp, hroot, hr, hinv, hlive, hl, hb => by
+    have h0 := hb 0 (by simp)
+    have h1 := hb 1 (by simp)
+    simp only [List.take_zero, List.take_succ_cons, RV.C10.runOps, List.foldl_nil, List.foldl_cons] at h0 h1
+    obtain ⟨t1, g1, g2, g3, g4, g5, g6⟩ :=
+      tie_c10_step cfg hc hok t tr hti hroot hr hinv hlive op (hl op (by simp)) h0 h1
+    have hn : tr.a.nextPage ≤ 2 ^ 64 := by
+      have := h0.1
+      have hpos := pw_pos cfg
+      rcases Nat.lt_or_ge tr.a.nextPage (2 ^ 40) with h | h
+      · omega
+      · have : 2 ^ 40 * 1 ≤ (tr.a.nextPage + 2) * pw cfg := Nat.mul_le_mul (by omega) hpos
+        omega
+    obtain ⟨_, s2, s3⟩ := RV.C10.c10_step cfg hok tr hti hp hn op (hl op (by simp))
+    obtain ⟨t', e1, e2, e3, e4, e5, e6⟩ := tie_c10_ops cfg hc hok rest t1 (RV.C10.applyOp cfg tr op) g5 s2 g6 g2 g3 g4
+      (fun o ho => hl o (by simp [ho]))
+      (fun n hn => by have := hb (n + 1) (by simp; omega); simpa [RV.C10.runOps] using this)
+    refine ⟨t', ?_, ?_, ?_, ?_, ?_, ?_⟩
+    · simp only [List.foldlM_cons, g1]; exact e1
+    · simpa [RV.C10.runOps] using e2
+    · simpa [RV.C10.runOps] using e3
+    · simpa [RV.C10.runOps] using e4
+    · simpa [RV.C10.runOps] using e5
+    · simp only [RV.C10.runOps, RV.C10.runSpec, List.foldl_cons] at e6 ⊢
+      rw [e6, s3]
+
+/-! ## `Tree.reinit` (C16) -/
+
+/-- **`Tree.reinit()`**: let `tr` be a well-formed tree (`TreeInv`, `PidInv`, root in page 1) laid out in the data
+of `t` (`Repr`, free pages chained through word 0 and still carrying their stale non-zero page id, nothing
+behind the frontier: the data ends there or the frontier page has page id 0) — the memory a cleanly closed
+persistent tree leaves in its file.  From a state `t0` with that data and a fresh `Tree` struct (zero
+statistics; `nextPage` arbitrary; `freePage = 0` if the free list is empty, because the code assigns it only
+when it finds a head) the generated `reinit` returns (frontier scan, marking walk, the three `tailPages`
+loops; fuel `≥ height`), leaves the data alone and recomputes exactly the allocator scalars of `tr`:
+frontier, head of the free list, `NumLeafKeys` (the recount `countLeafKeys`), `NumPagesFree`. -/
+theorem tie_reinit (cfg : Cfg) (hc : CfgFlat cfg) (tr : Tree) (t t0 : St)
+    (hinv : TreeInv cfg tr) (hpid : PidInv tr) (hroot : tr.root.pid = 1)
+    (hr : TreeFlat.Repr cfg t.data tr.root) (hch : FreeChain cfg t.data tr.a.free)
+    (hsmall : t.data.size < 2 ^ 40)
+    (hstale : ∀ q ∈ tr.a.free, pidW cfg.maxKeys (pageOf cfg t.data q) ≠ 0#64)
+    (hend : t.data.size < (tr.a.nextPage + 1) * pw cfg ∨
+      pidW cfg.maxKeys (pageOf cfg t.data tr.a.nextPage) = 0#64)
+    (hd0 : t0.data = t.data) (he0 : t0.epoch = t.epoch)
+    (hlk0 : t0.numLeafKeys = 0#64) (hpf0 : t0.numPagesFree = 0#64)
+    (hfp0 : tr.a.free = [] → t0.freePage = 0#64)
+    (fuel : Nat) (hfuel : height tr.root ≤ fuel) :
+    ∃ t', reinit (w cfg.pageSize) (w cfg.maxKeys) fuel t0 = some t' ∧
+      t'.data = t.data ∧ t'.epoch = t.epoch ∧ t'.nextPage = w tr.a.nextPage ∧
+      t'.freePage = w tr.a.freeHead ∧ t'.numLeafKeys = w (countLeafKeys tr.root) ∧
+      t'.numPagesFree = w tr.a.free.length :=
+  reinit_refines hc tr t t0 hinv hpid hroot hr hch hsmall hstale hend hd0 he0 hlk0 hpf0 hfp0 fuel hfuel
+
 /-! ## non-vacuity -/
 
 def exCfg : Cfg := Cfg.ofPageSize 80
@@ -353,6 +611,34 @@ example : (initRootNode (w 80) (w 4) 2
       (fun x => (x.nextPage, x.numLeafKeys, walkFlat exCfg x.data 2 1)) =
     some (3#64, 1#64, walk (initRoot exCfg
       { nextPage := 1, free := [], leafKeys := 0, pagesFree := 0, dataLen := 320, curSz := 1048576 })) := by
+  decide +kernel
+
+/-- `tie_DeleteBelow`, evaluated on the example tree: `DeleteBelow(4)` empties the leaf in page 2 (values 1, 2),
+which is released (free list head 2, one page free) and its routing entry dropped by `n.compact(1)`; the
+generated code and the structural model agree on the walk and on the allocator scalars -/
+example : (Gen.TreeM.DeleteBelow (w 80) (w 4) 2 ex2St 4#64).map
+      (fun x => (x.freePage, x.numPagesFree, x.numLeafKeys, walkFlat exCfg x.data 2 1)) =
+    some (w (deleteBelow ⟨ex2Root, ex2Alloc⟩ 4#64).a.freeHead,
+      BitVec.ofInt 64 (deleteBelow ⟨ex2Root, ex2Alloc⟩ 4#64).a.pagesFree,
+      BitVec.ofInt 64 (deleteBelow ⟨ex2Root, ex2Alloc⟩ 4#64).a.leafKeys,
+      walk (deleteBelow ⟨ex2Root, ex2Alloc⟩ 4#64)) ∧
+    (deleteBelow ⟨ex2Root, ex2Alloc⟩ 4#64).a.free = [2] := by
+  decide +kernel
+
+/-- the remaining hypotheses of `tie_reinit` hold of the example (no free pages, the data ends at the frontier) -/
+example : PidInv ⟨ex2Root, ex2Alloc⟩ ∧ FreeChain exCfg ex2St.data ex2Alloc.free ∧
+    ex2St.data.size < (ex2Alloc.nextPage + 1) * pw exCfg := by
+  refine ⟨⟨by decide, fun x => ?_⟩, trivial, by decide⟩
+  show List.count x (pids ex2Root) + List.count x [] = List.count x (List.range' 1 (5 - 1))
+  rw [show pids ex2Root = [1, 2, 3, 4] from by decide, show List.range' 1 (5 - 1) = [1, 2, 3, 4] from by decide]
+  simp
+
+/-- `tie_reinit`, evaluated: a fresh `Tree` struct over the example's memory gets frontier 5, no free page,
+7 leaf keys -/
+example : (reinit (w 80) (w 4) 2
+      { ex2St with nextPage := 0#64, freePage := 0#64, numLeafKeys := 0#64, numPagesFree := 0#64 }).map
+      (fun x => (x.nextPage, x.freePage, x.numLeafKeys, x.numPagesFree, x.data == ex2Data)) =
+    some (5#64, 0#64, 7#64, 0#64, true) ∧ countLeafKeys ex2Root = 7 := by
   decide +kernel
 
 end RV.TieTree2
